@@ -1,0 +1,22 @@
+//go:build verif
+
+package gen
+
+// VerifSwitchCase is one `if hash == Hash && Str == text` line of the generated keyword switch.
+type VerifSwitchCase struct {
+	Bucket uint32 // the `case` value of the outer switch on hash & mask
+	Hash   uint32
+	Str    string
+	Action int
+}
+
+// VerifStringSwitch exposes asStringSwitch (the data behind the string_switch template function) to /verif.
+func VerifStringSwitch(m map[string]int) (mask uint32, cases []VerifSwitchCase) {
+	sw := asStringSwitch(m)
+	for _, c := range sw.Cases {
+		for _, sc := range c.Subcases {
+			cases = append(cases, VerifSwitchCase{Bucket: c.Value, Hash: sc.Hash, Str: sc.Str, Action: sc.Action})
+		}
+	}
+	return sw.Mask(), cases
+}
